@@ -86,4 +86,67 @@ func init() {
 			Assumptions: append([]string{"L1 process unit: real process/Registry/Engine.send paths on a bare engine; the inbox is a fake that mirrors Inbox.Start/Stop and lets the harness choose every batch split; event stream is a synchronous recording sink"}, commonAssumptions...),
 		})
 	}
+
+	seqAssume := func(extra ...string) []string { return append(extra, commonAssumptions...) }
+	reg(&PropSpec{
+		ID: "C16",
+		Harnesses: func(tier string) []HarnessSpec {
+			return []HarnessSpec{{Name: "reader-envelope", Pkg: "remote", Func: "ZZ_C16_Reader", Params: pm("M", tierSel(tier, 2, 3)),
+				Witnesses: []string{"delivered"}, Deadline: 30 * time.Minute}}
+		},
+		Bounds: func(tier string) string {
+			return fmt.Sprintf("one envelope: 0..2 type names (from {two known, one unknown}), 0..2 targets (registered or not), 0..2 senders, 1..%d messages whose TargetIndex/SenderIndex/TypeNameIndex are unconstrained symbolic int32", tierSel(tier, 2, 3))
+		},
+		Outside:     []string{"the protobuf byte decoder (Envelope.UnmarshalVT) and DRPC framing: the harness starts from a decoded Envelope", "payload decoding: the Deserializer is a stub that fails for the unknown type name and otherwise returns a value naming the type and the message", "nil entries inside Targets/Senders", "more than one envelope per stream"},
+		Assumptions: seqAssume("stream = stub returning the envelope then an error; engine = bare engine with two recording processes (actor harness helper)"),
+	})
+	reg(&PropSpec{
+		ID: "C18",
+		Harnesses: func(tier string) []HarnessSpec {
+			return []HarnessSpec{{Name: "snapshots", Pkg: "cluster", Func: "ZZ_C18_Snapshots", Params: pm("U", tierSel(tier, 3, 4), "N", tierSel(tier, 3, 4)),
+				Witnesses: []string{"duplicate-entry", "leave"}, Deadline: 30 * time.Minute}}
+		},
+		Bounds: func(tier string) string {
+			return fmt.Sprintf("sequences of %d snapshots over a universe of %d members with fixed kind sets; membership of each member in each snapshot and a duplicate entry are symbolic booleans; every snapshot contains the observing node", tierSel(tier, 3, 4), tierSel(tier, 4, 5)-1)
+		},
+		Outside:     []string{"members that change host or kinds between snapshots while keeping their ID", "Members()/HasKind() request plumbing (the agent's state is read directly)", "longer sequences / larger universes", "map iteration order: one order explored"},
+		Assumptions: seqAssume("Agent built by NewAgent on a Cluster value whose engine is a bare engine with a synchronous event sink; snapshots are delivered by calling Agent.Receive"),
+	})
+	reg(&PropSpec{
+		ID: "C20",
+		Harnesses: func(tier string) []HarnessSpec {
+			return []HarnessSpec{{Name: "provider-history", Pkg: "cluster", Func: "ZZ_C20_Provider", Params: pm("U", tierSel(tier, 3, 4), "N", tierSel(tier, 3, 4)),
+				Witnesses: []string{"unreachable-member", "unreachable-non-member"}, Deadline: 30 * time.Minute}}
+		},
+		Bounds: func(tier string) string {
+			return fmt.Sprintf("histories of %d messages (handshake from any peer / member list with symbolic contents / unreachable report for any member address or an unknown address) over a universe of %d members", tierSel(tier, 3, 4), tierSel(tier, 3, 4))
+		},
+		Outside:     []string{"the Started handler (zeroconf announce/browse, ping repeater) and the event-stream child that turns RemoteUnreachableEvent into memberLeave", "two members sharing one host address", "map iteration order: one order explored"},
+		Assumptions: seqAssume("SelfManaged built by its producer on a Cluster value with a bare engine, a recording agent process and a recording remote; its own member added as Started does; messages delivered by calling Receive"),
+	})
+
+	es := func(prop int, tier string, witnesses ...string) HarnessSpec {
+		return HarnessSpec{Name: "event-stream-history", Pkg: "actor", Func: "ZZ_ES",
+			Params: pm("prop", prop, "K", tierSel(tier, 4, 5), "S", 2, "L", 30), Witnesses: witnesses, Deadline: 30 * time.Minute}
+	}
+	reg(&PropSpec{
+		ID:        "C09",
+		Harnesses: func(tier string) []HarnessSpec { return []HarnessSpec{es(9, tier, "stopped-subscriber", "equal-pid-distinct-object")} },
+		Bounds: func(tier string) string {
+			return fmt.Sprintf("histories of %d operations (subscribe / unsubscribe with the same or an equal PID object, broadcast, send to an unregistered local PID with or without sender, send to a foreign address without remote, send to nil, a subscriber stops while subscribed) over 2 subscribers; the operation, object identity and sender choices are symbolic; 'finite' = the event queue drains within 30 handled events after each operation", tierSel(tier, 4, 5))
+		},
+		Outside:     []string{"the event stream's own inbox and goroutine (events are queued and handled one at a time by the harness)", "remote subscribers", "an unbounded event count that stays below 30 per operation"},
+		Assumptions: seqAssume("event-stream unit: the real eventStream receiver, Engine.send/SendLocal/BroadcastEvent/Subscribe/Unsubscribe and Registry on a bare engine; the event stream's process is a queue drained by the harness; subscribers are recording processes"),
+	})
+	reg(&PropSpec{
+		ID: "C12",
+		Harnesses: func(tier string) []HarnessSpec {
+			return []HarnessSpec{es(12, tier, "equal-pid-distinct-object"), l1(12, tier, "lifecycle-events", tierSel(tier, 4, 5), 2, 2, 0, 1, 0)}
+		},
+		Bounds: func(tier string) string {
+			return fmt.Sprintf("event-stream unit: histories of %d subscribe/unsubscribe/broadcast operations over 2 subscriber PIDs, each given as the registered object or as an equal PID in a distinct object (symbolic); lifecycle events: L1 histories of %d operations with <= 2 panics counting ActorStarted/Restarted/Stopped events per occurrence", tierSel(tier, 4, 5), tierSel(tier, 4, 5))
+		},
+		Outside:     []string{"concurrent broadcasters (schedules)", "duplicate-id and dead-letter events (C10, C09)", "remote subscribers"},
+		Assumptions: seqAssume("event-stream unit as for C09; L1 process unit as for C04"),
+	})
 }
